@@ -154,6 +154,20 @@ func RunC05(t *kernel.Tape, o Opts) *Result {
 	sname := sysNames[sys]
 	spec, roots, source := drawSpec(t, o, sys)
 	concurrent := t.Bool(1, 2)
+	{
+		// A universe is a set of distinct version keys; anything else is a
+		// generator error, never a finding.
+		seen := map[resolve.VersionKey]bool{}
+		for _, r := range spec.Refs() {
+			k := spec.VK(r.P, r.V)
+			if seen[k] {
+				res.Status = "generator-error"
+				res.Config = sname + "/duplicate-version-key"
+				return res
+			}
+			seen[k] = true
+		}
+	}
 
 	// Knobs.
 	order := spec.Refs()
@@ -490,6 +504,24 @@ func RunC05(t *kernel.Tape, o Opts) *Result {
 		prog = append(prog, "|")
 	}
 	res.Distinct = hashStrings(spec.SchemaText(), strings.Join(prog, ","), res.SchedHash, fmt.Sprint(order), fmt.Sprint(squeeze))
+	{
+		var obs []string
+		for _, op := range prefixOps {
+			obs = append(obs, op.sig)
+		}
+		for _, ops := range programs {
+			for _, op := range ops {
+				obs = append(obs, op.sig)
+			}
+		}
+		for _, r := range spec.Refs() {
+			if sg, ok := refs[r]; ok {
+				obs = append(obs, sg)
+			}
+		}
+		obs = append(obs, spec.Dump(live))
+		res.Digest = hashStrings(obs...)
+	}
 
 	if len(res.Violations) > 0 || len(res.RaceSteps) > 0 || o.WantDetail {
 		scn := &c05Scenario{System: sname, Source: source, Universe: spec.SchemaText(), Config: mode, LRUSize: squeeze, Results: map[string]string{}}
